@@ -23,6 +23,31 @@ type ProtoCtx struct {
 	UserSyms []string
 	PeerIP   string
 	minted   bool
+	// ageing cookie: made when the tunnel's connection is opened, 46 s past its expiry (inside the one-minute leeway),
+	// presented later on that same connection
+	ageCookie string
+	ageAt     string
+	ageMade   time.Time
+}
+
+// PrepareAgeing forges the ageing cookie (call right before the connection is opened).
+func (pc *ProtoCtx) PrepareAgeing() error {
+	if pc.I.IdP == nil {
+		return nil
+	}
+	if err := pc.EnsureMint(); err != nil {
+		return err
+	}
+	m := map[string]interface{}{}
+	for k, v := range pc.CC.claims {
+		m[k] = v
+	}
+	pc.ageAt = pc.I.IdP.Issue(fmt.Sprint(pc.CC.claims["sub"]))
+	pc.ageMade = time.Now()
+	m["accessToken"] = pc.ageAt
+	m["exp"] = pc.ageMade.Unix() - 46
+	pc.ageCookie = forge.JWS("HS256", []byte(KeyPAASign), forge.Header("HS256"), forge.Claims(m))
+	return nil
 }
 
 func (i *Inst) NewProtoCtx(s Script, rng *rand.Rand) *ProtoCtx {
@@ -120,6 +145,14 @@ func (pc *ProtoCtx) Build(st map[string]interface{}) ([]byte, M, error) {
 		switch {
 		case ck == "none":
 			pkt = tsgu.TunnelCreate(0x2, "", false)
+		case ck == "ageing":
+			if pc.ageCookie == "" {
+				return nil, nil, fmt.Errorf("ageing cookie was not prepared")
+			}
+			cookie = pc.ageCookie
+			lp["tok"] = tokRec("compact", "HS256", "gw", "rdpgw", true, -46-int(time.Since(pc.ageMade)/time.Second), false, 0, i.IdP.State(pc.ageAt), "none")
+			lp["kind"] = "ageing"
+			pkt = tsgu.TunnelCreate(0x2, cookie, true)
 		case ck == "good":
 			if err := ensureMint(); err != nil {
 				return nil, nil, err
